@@ -222,12 +222,12 @@ pub fn run_c04(ctx: &mut Ctx) {
         v["probes"] = json!(r.probes);
         v
     };
-    run_prop(ctx, "games_from_corpus_and_constructed_starts", move || game_strategy(t.pick(120, 200)), t.pick(4_000, 100_000), body, tc);
+    run_prop(ctx, "games_from_corpus_and_constructed_starts", move || game_strategy(t.pick(1_440, 600)), t.pick(48_000, 300_000), body, tc);
     run_prop(
         ctx,
         "games_from_startpos",
         move || (proptest::collection::vec(any::<u16>(), 0..t.pick(120, 200)), proptest::collection::vec(any::<u16>(), 0..3)).prop_map(|(choices, probes)| GameRecipe { walk: WalkRecipe { start: Start::Corpus(0), choices }, probes }),
-        t.pick(1_500, 40_000),
+        t.pick(18_000, 120_000),
         body,
         tc,
     );
@@ -242,7 +242,7 @@ pub fn run_c04(ctx: &mut Ctx) {
             )
                 .prop_map(|(start, choices, probes)| GameRecipe { walk: WalkRecipe { start, choices }, probes })
         },
-        t.pick(12_000, 300_000),
+        t.pick(144_000, 900_000),
         body,
         tc,
     );
@@ -625,12 +625,12 @@ pub fn run_c05(ctx: &mut Ctx) {
         SEEN.with(|s| c05_case(&start, &moves, st, &mut s.borrow_mut()))?;
         c05_transposition(&start, &moves, st)
     };
-    run_prop(ctx, "histories_three_producers", move || walk_strategy(t.pick(100, 200)), t.pick(5_000, 120_000), body, walk_json);
+    run_prop(ctx, "histories_three_producers", move || walk_strategy(t.pick(1_200, 600)), t.pick(60_000, 360_000), body, walk_json);
     run_prop(
         ctx,
         "short_histories_from_special_starts",
         || (prop_oneof![placement_castle().prop_map(Start::Placement), placement_promo().prop_map(Start::Placement), placement_ep().prop_map(Start::Placement), (7usize..22).prop_map(Start::Corpus)], proptest::collection::vec(any::<u16>(), 0..10)).prop_map(|(start, choices)| WalkRecipe { start, choices }),
-        t.pick(20_000, 500_000),
+        t.pick(240_000, 1_500_000),
         body,
         walk_json,
     );
@@ -639,7 +639,7 @@ pub fn run_c05(ctx: &mut Ctx) {
         ctx,
         "transpositions_from_open_positions",
         || (prop_oneof![Just(0usize), Just(7usize), Just(8usize), Just(12usize), 38usize..46].prop_map(Start::Corpus), proptest::collection::vec(any::<u16>(), 4..9)).prop_map(|(start, choices)| WalkRecipe { start, choices }),
-        t.pick(20_000, 500_000),
+        t.pick(240_000, 1_500_000),
         |r, st| {
             let Some((start, moves)) = play_walk(r) else { return Ok(()) };
             c05_transposition(&start, &moves, st)
@@ -650,7 +650,7 @@ pub fn run_c05(ctx: &mut Ctx) {
         ctx,
         "single_component_mutations",
         || (prop_oneof![placement_general(), placement_castle(), placement_ep()], any::<u8>(), any::<u8>(), any::<u8>()).prop_map(|(base, kind, a, b)| MutRecipe { base, kind, a, b }),
-        t.pick(60_000, 2_000_000),
+        t.pick(720_000, 6_000_000),
         |r, st| c05_mutation(r, st),
         |r| {
             let p = build_placement(&r.base);
